@@ -68,6 +68,7 @@ type Shape struct {
 	N     int  // element count of slices
 	Nil   bool // nil pointer / nil slice / nil map / nil interface
 	Ign   bool // (*struct kinds) the pointer type is listed in Filter.IgnoreTypes
+	BadPointer bool // (taggable maps) one of the tags points at a list element that does not exist
 	Empty bool // empty string / empty (non-nil) slice
 }
 
@@ -323,6 +324,17 @@ func genMapOf(t *rapid.T, depth int, mt string) *Shape {
 			v.Nil = false
 		default: // MSI
 			opts := []string{KString, KString, KBytes, KStrs, KBytess, KInt, KBool}
+			if depth > 0 && rapid.IntRange(0, 39).Draw(t, "deepChain") == 0 {
+				// maps nested directly in maps, far deeper than the rest of the grammar goes
+				levels := rapid.SampledFrom([]int{40, 66, 70, 130}).Draw(t, "chainLevels")
+				leafMap := &Shape{K: KMap, MT: MSI, Keys: []string{"bottom"}, Kids: []*Shape{{K: KString}}}
+				cur := leafMap
+				for l := 0; l < levels; l++ {
+					cur = &Shape{K: KMap, MT: MSI, Keys: []string{"d"}, Kids: []*Shape{cur}}
+				}
+				s.Kids = append(s.Kids, cur)
+				continue
+			}
 			if depth > 0 {
 				opts = append(opts, KPStruct, KStruct, KMap, KPStrcts, "[]map", KIfaces)
 			}
@@ -363,8 +375,22 @@ func genMapOf(t *rapid.T, depth int, mt string) *Shape {
 }
 
 // genTMap draws a Taggable map: the classification of a key is encoded in the key itself.
-func genTMap(t *rapid.T, depth int) *Shape {
+func genTMap(t *rapid.T, depth int) *Shape { return genTMapLevel(t, depth, 0) }
+
+func genTMapLevel(t *rapid.T, depth, level int) *Shape {
 	s := &Shape{K: KTMap}
+	if level == 0 && rapid.IntRange(0, 11).Draw(t, "listIndexTag") == 0 {
+		// a tag that points at an element the list does not have: a bad tag pointer, Process must fail
+		n := rapid.SampledFrom([]int{0, 2}).Draw(t, "listLen")
+		idx := n + rapid.SampledFrom([]int{0, 3}).Draw(t, "beyond")
+		s.Keys = append(s.Keys, fmt.Sprintf("lst|%s|%s|%d", rapid.SampledFrom([]string{"public", "sensitive", "secret"}).Draw(t, "lclass"), rapid.SampledFrom([]string{"", "redact"}).Draw(t, "lop"), idx))
+		l := &Shape{K: KStrs, N: n}
+		if n == 0 {
+			l.Empty = true
+		}
+		s.Kids = append(s.Kids, l)
+		s.BadPointer = true
+	}
 	n := rapid.IntRange(0, 4).Draw(t, "nkeys")
 	for i := 0; i < n; i++ {
 		key := fmt.Sprintf("t%d", i)
@@ -375,7 +401,11 @@ func genTMap(t *rapid.T, depth int) *Shape {
 			o := rapid.SampledFrom([]string{"", "", "redact", "encrypt", "hmac-sha256"}).Draw(t, "top")
 			key = fmt.Sprintf("%s|%s|%s", key, c, o)
 		}
-		if !strings.Contains(key, "|") && rapid.IntRange(0, 3).Draw(t, "nestedTagged") == 0 {
+		nestOdds := 3
+		if level > 0 && level < 6 {
+			nestOdds = 1 // once nested, keep nesting with probability 1/2: pointers of 3-7 segments
+		}
+		if !strings.Contains(key, "|") && rapid.IntRange(0, nestOdds).Draw(t, "nestedTagged") == 0 {
 			// an untagged key holding a plain map whose own keys are tagged through nested pointers; the
 			// outer key may be an unusual but legal map key
 			outer := rapid.SampledFrom([]string{"inner", "inner", "", ".", "..", "a~b", "x/y", "sp ace"}).Draw(t, "outerKey")
@@ -386,7 +416,7 @@ func genTMap(t *rapid.T, depth int) *Shape {
 				}
 			}
 			if !dup {
-				n := genTMap(t, 0)
+				n := genTMapLevel(t, 0, level+1)
 				n.K = KNTMap
 				s.Keys = append(s.Keys, outer)
 				s.Kids = append(s.Kids, n)
@@ -564,6 +594,10 @@ func collectTags(prefix string, m map[string]interface{}) []encrypt.PointerTag {
 		parts := strings.Split(k, "|")
 		if len(parts) == 3 {
 			out = append(out, encrypt.PointerTag{Pointer: prefix + "/" + ptrEsc.Replace(k), Classification: encrypt.DataClassification(parts[1]), Filter: encrypt.FilterOperation(parts[2])})
+			continue
+		}
+		if len(parts) == 4 { // the tag points at one element of the list stored under this key
+			out = append(out, encrypt.PointerTag{Pointer: prefix + "/" + ptrEsc.Replace(k) + "/" + parts[3], Classification: encrypt.DataClassification(parts[1]), Filter: encrypt.FilterOperation(parts[2])})
 			continue
 		}
 		if inner, ok := v.(map[string]interface{}); ok {
